@@ -1,4 +1,5 @@
 """C02 — shares are conserved (structural clauses)."""
+import re
 from mir import Terms, parse_callee, show, op_place, op_const, place_proj, subterms, summary, is_decimal_arith_assign
 from flow import root_of_operand
 from roles import Roles, RULES, POOL, LOT, agg_fields, guards_of, truth, is_agg, sell_time_ratio, times_ratio
@@ -374,6 +375,42 @@ def run(ctx, rep):
     # claims and offsets are read under the key they were booked under (shared with C09-R5)
     import rules.c09 as c09
     c09.shared_index_space(R, rep, "R8")
+    every_line_counts(R, rep)
+
+
+THINNING = ("dedup", "dedup_by", "dedup_by_key", "retain", "retain_mut", "truncate", "drain", "pop", "remove", "swap_remove", "clear", "split_off",
+            "pop_front", "pop_back", "extract_if")
+
+
+def every_line_counts(R, rep, rule="R10"):
+    """Every line of the ledger enters the matching exactly once: between the caller's list and the day loop the transaction
+    vector is only sorted, walked and re-assembled by the same-day merge (which ADDS the merged line's shares to the line it
+    folds it into). A call that thins a vector of transactions — `dedup`, `retain`, `truncate`, `drain`, `pop`, `remove`, … — drops
+    lines: two identical fills of one order are two purchases, not one (seeded change C01-s7)."""
+    F = R.F
+    n = 0
+    bad = []
+    for b in F.user_bodies("cgt_core"):
+        if not ("::matcher::" in b.id or "::calculator::" in b.id):
+            continue
+        for i, t in b.calls():
+            m = parse_callee(t["callee"])
+            aty = t.get("aty") or []
+            if not aty or not re.search(r"Vec(Deque)?<(&)?(cgt_core::models::Transaction|cgt_core::models::GbpTransaction|cgt_core::\S*Transaction)", aty[0]):
+                continue
+            if "alloc::vec::Vec" not in t["callee"] and "VecDeque" not in t["callee"] and "slice" not in t["callee"]:
+                continue
+            n += 1
+            if m[2] in THINNING:
+                bad.append((b, t, m[2]))
+    for b, t, name in bad:
+        rep.ob(rule, f"{b.short}:{name}", False, f"`{b.short}` calls `{name}` on the list of transactions: lines are dropped before matching, so the shares "
+               "of a dropped line are neither matched nor pooled (two identical fills count once)", b.loc(t["sp"]), key=f"{rule}:{b.short}:thins-transactions:{name}")
+    rep.ob(rule, "transactions:never-thinned", not bad, f"{n} calls on transaction vectors in the matcher and calculator, none removes elements" if not bad else
+           f"{len(bad)} calls remove lines from the transaction list", "", key=f"{rule}:transactions:never-thinned")
+    rep.count("transaction_vector_calls", n)
+    if n < 3:
+        rep.unresolved(rule, "transaction-vectors", f"only {n} calls on a Vec of transactions found in the matcher / calculator (sort, iteration and push expected)")
 
 
 def _touches_ratio(R, cb):
